@@ -56,3 +56,11 @@ Definition opinfo_gen (e : pyval -> pyval -> bool) (h : pyval -> hk) (a b : opin
   L [enc_eqres (oi_eq_with Z Z.eqb e he a b); enc_eqres (oi_eq_with Z Z.eqb e he b a); sB he].
 Definition c08_opinfo : opinfo Z -> opinfo Z -> sx := opinfo_gen eqb hkey.
 Definition c08_opinfo_fix : opinfo Z -> opinfo Z -> sx := opinfo_gen eqb_fix hkey_fix.
+
+(* a sequence of attributes built one after the other in one process: n x n matrices (row-major) of
+   `==` and of hash equality *)
+Definition seq_gen (e : pyval -> pyval -> bool) (h : pyval -> hk) (vs : list pyval) : sx :=
+  L [ L (flat_map (fun x => map (fun y => sB (e x y)) vs) vs);
+      L (flat_map (fun x => map (fun y => sB (hk_eqb (h x) (h y))) vs) vs) ].
+Definition c08_seq : list pyval -> sx := seq_gen eqb hkey.
+Definition c08_seq_fix : list pyval -> sx := seq_gen eqb_fix hkey_fix.
